@@ -177,10 +177,10 @@ class World(S.WorldComponent):
     theorems = ["sendAll_wire", "markReceived_once", "pop_sound", "C01_receiver_total", "C01_ordered", "C01_unordered",
                 "C01_no_crosstalk", "ppid_roundtrip"]
     ssn_share = 4
-    mix = [("early", False, 2), ("ssnwrap", False, 2), ("reliable", False, 2), ("reliable", True, 1), ("reorder-frag", True, 2), ("reorder-frag", False, 1),
+    mix = [("early", False, 6), ("ssnwrap", False, 2), ("reliable", False, 2), ("reliable", True, 1), ("reorder-frag", True, 2), ("reorder-frag", False, 1),
            ("reliable-heavy-loss", False, 2), ("clean", False, 1), ("mixed-pr", False, 1), ("lifecycle", False, 1),
            ("reuse", False, 3), ("reuse", True, 1), ("expiry", False, 3), ("strike", False, 3)]
-    quick = (63, 240)
+    quick = (75, 240)
     thorough = (360, 500)
     oracles = [S.oracle_no_crash, S.oracle_c01, oracle_c01_instants]
 
